@@ -46,7 +46,8 @@ class Owner:
         self.log.append("m")
 
 
-LINK_NAMES = ("value", "child", "children", "table", "group", "mchild", "mlist", "mdef", "tag", "trait_added")
+LINK_NAMES = ("value", "child", "children", "table", "group", "mchild", "mlist", "mdef", "tag", "trait_added", "extra")
+OPT = "<trait('extra', optional=True)>"
 
 
 def population(objs):
@@ -131,6 +132,9 @@ HOP = st.one_of(
     st.tuples(st.just("remove_one"), P, P),
     st.tuples(st.just("remove_one"), P, P),
     st.tuples(st.just("kill_owner")), st.tuples(st.just("gc")),
+    # an OPTIONAL trait that does not exist yet: observe it, add it later with add_trait, change it, unobserve
+    st.tuples(st.just("add_opt"), st.integers(0, 2)), st.tuples(st.just("rem_opt"), st.integers(0, 2)),
+    st.tuples(st.just("add_trait_root")), st.tuples(st.just("set_extra")), st.tuples(st.just("readd_trait_root")),
 ).map(list)
 
 
@@ -174,13 +178,59 @@ def hist_run(case, ctx):
                 ctx.exclude("self-referential graph (C08/F16 territory)")
                 break
             if k == "rem_live":
-                live = sorted(kk for kk, c in counts.items() if c > 0)
+                live = sorted(kk for kk, c in counts.items() if c > 0 and kk[1] != OPT)
                 if not live:
                     continue
                 hi, text_, api = live[op[1] % len(live)]
                 op = ["rem", hi, texts.index(text_), api]
                 k = "rem"
-            if k in ("add", "rem"):
+            if k in ("add_opt", "rem_opt"):
+                from traits.observation.api import trait as _trait
+                hi = op[1]
+                if hi == 2 and not owner_alive:
+                    continue
+                key = (hi, OPT, True)
+                if k == "add_opt":
+                    root.observe(handlers[hi], _trait("extra", optional=True))
+                    counts[key] = counts.get(key, 0) + 1
+                    n_reg += 1
+                    ctx.label("optional-registration")
+                elif counts.get(key, 0) > 0:
+                    try:
+                        root.observe(handlers[hi], _trait("extra", optional=True), remove=True)
+                    except Exception as e:
+                        ctx.fail("remove/raised", "removing the optional-trait registration raised %r" % (e,))
+                    counts[key] -= 1
+                    interesting = True
+            elif k == "add_trait_root":
+                if root.trait("extra") is None:
+                    root.add_trait("extra", Int(0))
+                    ctx.label("optional-trait-added")
+                    interesting = True
+            elif k == "readd_trait_root":
+                if root.trait("extra") is not None:
+                    root.remove_trait("extra")
+                    root.add_trait("extra", Int(0))
+                    ctx.label("optional-trait-re-added")
+            elif k == "set_extra":
+                if root.trait("extra") is not None:
+                    del log[:]
+                    root.extra += 1
+                    via_expr = set()       # `*` (anytrait) registrations match the added trait too
+                    for (h2, text2, _a2), c2 in counts.items():
+                        if c2 > 0 and text2 != OPT:
+                            try:
+                                if G.Reach(root, exprs[texts.index(text2)]).notify.get(("t", id(root), "extra")):
+                                    via_expr.add(h2)
+                            except ValueError:
+                                pass
+                    for hi, tag in enumerate(tags):
+                        exp = 1 if (counts.get((hi, OPT, True), 0) > 0 or hi in via_expr) and (hi != 2 or owner_alive) else 0
+                        if log.count(tag) != exp:
+                            ctx.fail("probe/optional-%s" % ("missed" if exp else "unexpected"),
+                                     "changing the later-added optional trait called handler %s %d time(s), expected %d; registrations %r"
+                                     % (tag, log.count(tag), exp, {kk: v for kk, v in counts.items() if v}))
+            elif k in ("add", "rem"):
                 hi, ei, api = op[1], op[2] % len(exprs), op[3]
                 if hi == 2 and not owner_alive:
                     continue
@@ -220,8 +270,26 @@ def hist_run(case, ctx):
                 else:
                     live_h = sum(c for (h2, _e, _a), c in counts.items() if h2 == hi)
                     if counts.get(key, 0) == 0 and live_h > 0:
-                        h = None
-                        continue          # guard: overlapping removal, not covered
+                        # removal of an expression that is not registered while OTHER registrations of the handler are
+                        # live: ref-counted notifiers may make it partly "succeed" (not covered by the statement), but
+                        # IF it raises it must have changed nothing
+                        if not walk_ok:
+                            h = None
+                            continue
+                        before = population(pool)
+                        try:
+                            root.observe(h, target, remove=True)
+                            h = None
+                            ctx.label("overlapping-removal-stole-notifiers")
+                            break         # the model no longer knows what is registered
+                        except NotifierNotFound:
+                            h = None
+                            ctx.label("overlapping-removal-raised")
+                            if population(pool) != before:
+                                ctx.fail("atomic/remove", "observe(%r, remove=True) raised NotifierNotFound but changed notifier "
+                                         "populations: %r" % (texts[ei], {kk: (before.get(kk), v) for kk, v in population(pool).items()
+                                                                          if before.get(kk) != v}))
+                        continue
                     if not walk_ok:
                         h = None
                         continue
@@ -302,7 +370,7 @@ def hist_run(case, ctx):
             # ---- probe every pool object
             reaches = {}
             for (hi, text, _api), c in counts.items():
-                if c > 0:
+                if c > 0 and text != OPT:
                     ei = texts.index(text)
                     r = G.Reach(root, exprs[ei])
                     for n in pool:
